@@ -451,3 +451,6 @@ Proof.
   induction es as [|e r IH]; intros s H; cbn [run_trace]; [constructor|].
   constructor; [apply step_boundary; exact H | apply IH, step_boundary, H].
 Qed.
+
+Lemma trace_boundary : forall c es, Forall Boundary (run_trace es (init_sess c)).
+Proof. intros c es. apply run_trace_boundary. apply init_boundary. Qed.
